@@ -419,7 +419,9 @@ fn unsized_rules(coll: &[Collected], rep: &mut Report) {
                 // fields reach helpers by shared reference; `&mut H` is the trait method's own (sized) state parameter handed on
                 if r.mutability.is_some() { continue; }
                 let relaxed = |bounds: &syn::punctuated::Punctuated<syn::TypeParamBound, syn::Token![+]>| bounds.iter().any(|b| matches!(b, syn::TypeParamBound::Trait(t) if matches!(t.modifier, syn::TraitBoundModifier::Maybe(_))));
-                let verdict = match &*r.elem {
+                let mut elem = &*r.elem;
+                while let syn::Type::Paren(p) = elem { elem = &*p.elem; }
+                let verdict = match elem {
                     syn::Type::ImplTrait(it) => Some(relaxed(&it.bounds)),
                     syn::Type::Path(tp) if tp.qself.is_none() && tp.path.segments.len() == 1 => {
                         let name = &tp.path.segments[0].ident;
